@@ -228,7 +228,11 @@ func envFileIndexer(y any, p tree.Path) (string, error) {
 		return value, nil
 	case map[string]any:
 		if pathValue, ok := value["path"]; ok {
-			return pathValue.(string), nil
+			path, isString := pathValue.(string)
+			if !isString {
+				return "", fmt.Errorf("%s: unexpected type %T", p, pathValue)
+			}
+			return path, nil
 		}
 		return "", fmt.Errorf("environment path attribute %s is missing", p)
 	}
